@@ -9,6 +9,8 @@ import (
 	"strings"
 	"sync"
 	"time"
+	"unicode"
+	"unicode/utf8"
 
 	am "github.com/hashicorp/go-argmapper"
 	"github.com/hashicorp/go-hclog"
@@ -538,16 +540,27 @@ type World struct {
 	// logger (writing to nowhere), which makes the library render its graphs
 	// and values as text; nothing else about the operation may change.
 	TraceLog bool
+	// ShareName, when set, is given to every function built as its FuncName.
+	ShareName string
 }
 
 // caseTrace is set by the runner for a fixed, index-determined subset of the
 // cases: every world made in such a case logs at trace level.
 var caseTrace bool
 
+// caseShareName, set the same way: every function built in a world of such a
+// case carries ONE display name (FuncName, e.g. what NewFuncList(fs,
+// FuncName("conv")) produces). A name identifies nothing.
+var caseShareName bool
+
 var traceLogger = hclog.New(&hclog.LoggerOptions{Level: hclog.Trace, Output: io.Discard})
 
 func NewWorld() *World {
-	return &World{origin: map[int64]*Origin{}, execs: map[int]int{}, specs: map[int]FuncSpec{}, errs: map[error]int{}, t0: time.Now(), TraceLog: caseTrace}
+	w := &World{origin: map[int64]*Origin{}, execs: map[int]int{}, specs: map[int]FuncSpec{}, errs: map[error]int{}, t0: time.Now(), TraceLog: caseTrace}
+	if caseShareName {
+		w.ShareName = "conv"
+	}
+	return w
 }
 
 // withTrace adds the trace logger to the options of an operation in a world
@@ -719,12 +732,21 @@ func structType(ls []Label, ptr bool, tag string, r *rand.Rand, caseMix bool) re
 			if caseMix && r != nil {
 				n = mixCase(n, r)
 			}
+			if first, size := utf8.DecodeRuneInString(n); first >= utf8.RuneSelf && unicode.IsLower(first) {
+				// a name starting with a non-ASCII letter is spelled with
+				// that letter in upper case on the struct side
+				n = string(unicode.ToUpper(first)) + n[size:]
+			}
 			tags = append(tags, n)
 		} else {
 			tags = append(tags, "", "typeOnly")
 		}
 		if l.Sub != "" {
 			tags = append(tags, "subtype="+l.Sub)
+			if len(tags) == 3 && i%2 == 1 {
+				// the options of a tag come in any order
+				tags[1], tags[2] = tags[2], tags[1]
+			}
 		}
 		fname := fmt.Sprintf("F%s_%d", tag, i)
 		if i > 0 && l.Name == "" && r != nil && r.Intn(2) == 0 {
@@ -788,7 +810,10 @@ func (w *World) Build(fi int, spec FuncSpec, r *rand.Rand, extra ...am.Arg) (*Bu
 	}
 	// default options are handed to NewFunc as a slice with spare capacity:
 	// the library must never write into it
-	opts := make([]am.Arg, 0, 8+len(extra))
+	opts := make([]am.Arg, 0, 9+len(extra))
+	if w.ShareName != "" {
+		opts = append(opts, am.FuncName(w.ShareName))
+	}
 	if spec.Once {
 		opts = append(opts, am.FuncOnce())
 		if r != nil && r.Intn(3) == 0 {
@@ -932,6 +957,10 @@ func (w *World) Build(fi int, spec FuncSpec, r *rand.Rand, extra ...am.Arg) (*Bu
 			}
 			if sp.OutForm == FormPtr {
 				res = []reflect.Value{svp}
+				if ferr != nil && sp.HasErr && fi%2 == 0 {
+					// the usual way to fail: return nil, err
+					res = []reflect.Value{reflect.Zero(outT[0])}
+				}
 			} else {
 				res = []reflect.Value{svp.Elem()}
 			}
